@@ -215,22 +215,51 @@ impl Co {
             },
         }
     }
-    /// matcher of the recorded lowering findings (on the tree as built)
-    pub fn finding_tag(&self, top: bool) -> &'static str {
-        self.norm().finding_tag_n(top)
+    /// `x == a or x == b` on one variable with integer literals: lowered as a domain constraint
+    fn special_or(&self) -> bool {
+        matches!(self, Co::Or(a, b) if matches!((&**a, &**b), (Co::Bin(Ex::V(x), "eq", Ex::K(_)), Co::Bin(Ex::V(y), "eq", Ex::K(_))) if x == y))
     }
-    fn finding_tag_n(&self, top: bool) -> &'static str {
+    /// `or` of two comparisons whose four operands are built from integer variables and integer
+    /// literals only (after the builder's folding: `int / int` folds to a FLOAT literal): lowered as a
+    /// reified disjunction since the repair `fix: or of two comparisons is a disjunction`
+    fn reified_or(&self, lc: &LCase) -> bool {
+        fn int_ex(lc: &LCase, e: &Ex) -> bool {
+            let mut vs = vec![];
+            e.vars(&mut vs);
+            !e.fold_real().has_float_lit() && vs.iter().all(|v| !lc.is_float_var(*v))
+        }
+        match self {
+            Co::Or(a, b) => match (&**a, &**b) {
+                (Co::Bin(l1, _, r1), Co::Bin(l2, _, r2)) => !self.special_or() && [l1, r1, l2, r2].iter().all(|e| int_ex(lc, e)),
+                _ => false,
+            },
+            _ => false,
+        }
+    }
+    /// an `or` node that is still lowered as a conjunction
+    fn has_or_as_and(&self, lc: &LCase) -> bool {
+        self.has(&|c| matches!(c, Co::Or(..)) && !c.special_or() && !c.reified_or(lc))
+    }
+    /// a `!=` leaf that is materialised through the no-op `NotEquals`: not linearised (nested inside
+    /// and/or/not, or with a non-linear side) and not a side of a reified `or` (`int_ne_reif` works)
+    fn has_noop_ne(&self, lc: &LCase, top: bool) -> bool {
+        match self {
+            Co::Bin(l, "ne", r) => !(top && l.fold().is_linear() && r.fold().is_linear()),
+            Co::Bin(..) => false,
+            Co::Or(a, b) => !self.special_or() && !self.reified_or(lc) && (a.has_noop_ne(lc, false) || b.has_noop_ne(lc, false)),
+            Co::And(a, b) => a.has_noop_ne(lc, false) || b.has_noop_ne(lc, false),
+            Co::Not(a) => a.has_noop_ne(lc, false),
+        }
+    }
+    /// matcher of the recorded lowering findings (on the tree as built)
+    pub fn finding_tag(&self, lc: &LCase, top: bool) -> &'static str {
+        self.norm().finding_tag_n(lc, top)
+    }
+    fn finding_tag_n(&self, lc: &LCase, top: bool) -> &'static str {
         if top && self.is_all_zero_row() { return "lin-all-zero-coefficients"; }
         if self.has(&|c| matches!(c, Co::Not(_))) { return "not-ignored"; }
-        if self.has(&|c| match c {
-            Co::Or(a, b) => !matches!((&**a, &**b), (Co::Bin(Ex::V(x), "eq", Ex::K(_)), Co::Bin(Ex::V(y), "eq", Ex::K(_))) if x == y),
-            _ => false }) { return "or-lowered-as-and"; }
-        // a `!=` that is not linearised: nested inside and/or/not (materialised through
-        // `NotEquals`), or with a non-linear side
-        if self.has(&|c| matches!(c, Co::Bin(l, "ne", r) if !(l.fold().is_linear() && r.fold().is_linear()))) { return "neq-noop"; }
-        if !top || matches!(self, Co::And(..) | Co::Or(..) | Co::Not(..)) {
-            if self.has(&|c| matches!(c, Co::Bin(_, "ne", _))) { return "neq-noop"; }
-        }
+        if self.has_or_as_and(lc) { return "or-lowered-as-and"; }
+        if self.has_noop_ne(lc, top) { return "neq-noop"; }
         "-"
     }
 }
@@ -476,7 +505,7 @@ pub fn do_enum(lc: &LCase, out: &mut Out) {
     got.sort();
     got.dedup();
     want.sort();
-    let tag = lc.cons.iter().map(|c| c.finding_tag(true)).find(|t| *t != "-").unwrap_or(
+    let tag = lc.cons.iter().map(|c| c.finding_tag(lc, true)).find(|t| *t != "-").unwrap_or(
         if lc.cons.iter().any(|c| c.has(&|c| matches!(c, Co::Bin(l, _, r) if l.has_divmod() || r.has_divmod()))) { "fluent-divmod" } else { "-" });
     if got != want {
         let extra: Vec<_> = got.iter().filter(|g| !want.contains(g)).take(1).collect();
@@ -754,7 +783,7 @@ impl Co {
             }
             return if *op == "ne" { "float-ne-ignored" } else if c.all_int_vars && *op != "eq" { "int-var-in-float-linear" } else { "-" };
         }
-        self.finding_tag(true)
+        self.finding_tag(lc, true)
     }
 }
 
@@ -796,7 +825,7 @@ pub fn do_solve(lc: &LCase, out: &mut Out) {
                     out.stat("solve.NoSolution-with-witness");
                     let tag = if lc.cons.iter().any(|c| c.norm().aux_clipped_at(w, true)) { "aux-var-clipped" }
                         else if lc.cons.iter().any(|c| c.norm().strict_unit_gap_at(lc, w, true)) { "mixed-strict-next-unit-step" }
-                        else if let Some(t) = lc.cons.iter().filter(|c| !matches!(c, Co::Bin(..))).map(|c| c.finding_tag(true)).find(|t| *t != "-") { t }
+                        else if let Some(t) = lc.cons.iter().filter(|c| !matches!(c, Co::Bin(..))).map(|c| c.finding_tag(lc, true)).find(|t| *t != "-") { t }
                         else { lc.cons.iter().map(|c| c.float_tag(lc, true)).find(|t| *t != "-").unwrap_or("-") };
                     out.fail(l, "C10", tag, format!("solve() = NoSolution although the witness {:?} satisfies every tree with margin: {:?} (vars {:?})", w, toks(), lc.vars));
                 }
